@@ -1,8 +1,8 @@
 (* C18 driver.  One request per line:
-     hist P:<id>:<key|->:<sn|->:<persisted sn|->:<iid.fmt,...|-> ...
-          A:<hdr>:<body> | R:<id>:<sn> (regular adv) | O:<id>:<sn> (populate) | U:<id>:<sn> (_update_state_num) | X (restart) ...
+     hist P:<id>:<key|->:<sn|->:<persisted sn|->:<iid.fmt,...|->:<sig 0|1> ...
+          A:<hdr>:<body> | R:<id>:<sn> (regular adv) | O:<id>:<sn> (populate) | U:<id>:<sn> (_update_state_num) | X (restart) | K:<id>:<key> (key regeneration) ...
    body = S.<key>.<ctr>.<aad>.<pt> | J | H.<n,n,...|-> | E
-   answer: one token per event  <outcome>/<calls|->/<sn,sn,...>/<psn,psn,...>  (description / persisted number of every pairing, - = None)
+   answer: one token per event  <outcome>/<calls|->/<sn,sn,...>/<psn,psn,...>/<fb 0|1>/<key,key,...>  (description / persisted number and key of every pairing, - = None; fb = falls_back)
      val <fmt> <hex>      -> from_bytes on its own *)
 open Drv
 let split c s = Stdlib.String.split_on_char c s
@@ -14,7 +14,7 @@ let fmt_of = function
 let chars_of s = if s = "-" then [] else
   Stdlib.List.map (fun t -> match split '.' t with [i; f] -> (n_of_dec i, fmt_of f) | _ -> failwith "char") (split ',' s)
 let pairing_of t = match split ':' t with
-  | ["P"; id; k; sn; psn; cs] -> { Bcast.p_id = bytes_of_hex id; p_key = opt_n k; p_sn = opt_n sn; p_psn = opt_n psn; p_chars = chars_of cs }
+  | ["P"; id; k; sn; psn; cs; sg] -> { Bcast.p_id = bytes_of_hex id; p_key = opt_n k; p_sn = opt_n sn; p_psn = opt_n psn; p_chars = chars_of cs; p_sig = (sg = "1") }
   | _ -> failwith "pairing"
 let body_of s = match split '.' s with
   | ["S"; k; ctr; aad; pt] -> Bcast.PSeal (n_of_dec k, n_of_dec ctr, bytes_of_hex aad, bytes_of_hex pt)
@@ -33,11 +33,12 @@ let out_str = function
   | Bcast.ONotApple -> "notapple" | Bcast.OOtherType -> "othertype" | Bcast.ONoPairing -> "nopairing"
   | Bcast.ONoKey -> "nokey" | Bcast.ONoDesc -> "nodesc" | Bcast.ONoDecrypt -> "nodecrypt"
   | Bcast.OStale -> "stale" | Bcast.OMismatch -> "mismatch" | Bcast.OAccepted -> "accepted"
-  | Bcast.OCrash k -> "crash-" ^ ck_str k
+  | Bcast.OUndelivered k -> "undelivered-" ^ ck_str k
 let call_str (((id, aid), iid), v) = hex_of_bytes id ^ "." ^ dec_of_n aid ^ "." ^ dec_of_n iid ^ "." ^ val_str v
 let calls_str l = if l = [] then "-" else Stdlib.String.concat "+" (Stdlib.List.map call_str l)
 let sns_str c = Stdlib.String.concat "," (Stdlib.List.map (fun p -> match p.Bcast.p_sn with None -> "-" | Some n -> dec_of_n n) c)
 let psns_str c = Stdlib.String.concat "," (Stdlib.List.map (fun p -> match p.Bcast.p_psn with None -> "-" | Some n -> dec_of_n n) c)
+let keys_str c = Stdlib.String.concat "," (Stdlib.List.map (fun p -> match p.Bcast.p_key with None -> "-" | Some n -> dec_of_n n) c)
 let handle = function
   | "hist" :: toks ->
       let ps = Stdlib.List.filter (fun t -> t.[0] = 'P') toks in
@@ -50,10 +51,12 @@ let handle = function
           | ["O"; id; sn] -> Bcast.OPopulate (bytes_of_hex id, n_of_dec sn)
           | ["U"; id; sn] -> Bcast.OUpdate (bytes_of_hex id, n_of_dec sn)
           | ["X"] -> Bcast.ORestart
+          | ["K"; id; k] -> Bcast.OSetKey (bytes_of_hex id, n_of_dec k)
           | _ -> failwith "event" in
         let ((c', o), cl) = Bcast.apply !c op in
         c := c';
-        (match op with Bcast.OAdv _ -> out_str o | _ -> "op") ^ "/" ^ calls_str cl ^ "/" ^ sns_str c' ^ "/" ^ psns_str c') evs in
+        (match op with Bcast.OAdv _ -> out_str o | _ -> "op") ^ "/" ^ calls_str cl ^ "/" ^ sns_str c' ^ "/" ^ psns_str c'
+        ^ "/" ^ (match op with Bcast.OAdv _ -> if Bcast.falls_back o then "1" else "0" | _ -> "0") ^ "/" ^ keys_str c') evs in
       if outs = [] then "." else Stdlib.String.concat " " outs
   | ["val"; f; h] ->
       (match Bcast.from_bytes (fmt_of f) (bytes_of_hex h) with
